@@ -67,6 +67,15 @@ var scenarios = []scenario{
 	{name: "update-user-modify", typ: 349, gov: []int{17}, build: func(e env) []rc.Field {
 		return []rc.Field{sub(login("spare"), rc.FS(102, "Spare3"), rc.F(106, []byte{0}), rc.F(110, rc.Bitmap(2)))}
 	}},
+	{name: "update-user-rename", typ: 349, gov: []int{17}, build: func(e env) []rc.Field {
+		return []rc.Field{sub(rc.F(101, rc.Obfuscate([]byte("spare"))), login("spare-renamed"), rc.FS(102, "Spare4"), rc.F(106, []byte{0}), rc.F(110, rc.Bitmap(2)))}
+	}},
+	{name: "update-user-rename-form-same-login", typ: 349, gov: []int{17}, build: func(e env) []rc.Field {
+		return []rc.Field{sub(rc.F(101, rc.Obfuscate([]byte("spare"))), login("spare"), rc.FS(102, "Spare5"), rc.F(106, rc.Obfuscate([]byte("newpw"))), rc.F(110, rc.Bitmap(2, 9)))}
+	}},
+	{name: "update-user-rename-form-own-account", typ: 349, gov: []int{17}, build: func(e env) []rc.Field {
+		return []rc.Field{sub(rc.F(101, rc.Obfuscate([]byte("actor"))), login("actor"), rc.FS(102, "Actor Account"), rc.F(106, []byte{0}), rc.F(110, rc.Bitmap(2, 9)))}
+	}},
 	{name: "new-user", typ: 350, gov: []int{14}, build: func(e env) []rc.Field {
 		return []rc.Field{login("created"), rc.FS(102, "Created"), rc.F(106, rc.Obfuscate([]byte("pw"))), rc.F(110, make([]byte, 8))}
 	}},
@@ -126,7 +135,7 @@ func init() {
 	n := len(scenarios) * chunks
 	core.Register(&core.Simple{
 		Id: "C05", Lvl: "exploration", Quick: n, Thorough: n * 12, PerBatch: 72, Width: 24, Timeout: 1200,
-		RuleText: "one case = one request scenario (request type x target kind, 54 scenarios incl. controls) executed on identical fresh servers under a chunk of access bitmaps: all-ones (baseline), all-ones minus each governing bit, only the governing bits, the 64 single-bit bitmaps (exhaustive across the 8 chunks of a scenario) and seeded random bitmaps; the oracle compares reply class, emissions to other clients and file/account/news/board snapshots with the baseline (granted) or demands an error reply and no change (denied). distinct = (scenario, bitmap class, granted/denied); non-trivial = every execution",
+		RuleText: "one case = one request scenario (request type x target kind, 57 scenarios incl. controls) executed on identical fresh servers under a chunk of access bitmaps: all-ones (baseline), all-ones minus each governing bit, only the governing bits, the 64 single-bit bitmaps (exhaustive across the 8 chunks of a scenario) and seeded random bitmaps; the oracle compares reply class, emissions to other clients and file/account/news/board snapshots with the baseline (granted) or demands an error reply and no change (denied). distinct = (scenario, bitmap class, granted/denied); non-trivial = every execution",
 		Case: runCase,
 	})
 }
